@@ -115,7 +115,7 @@ func dumpGuards(pat string) {
 			if a.Via != "" {
 				via = " via " + a.Via
 			}
-			fmt.Printf("   [%s] %s%s   @%s\n", st, a.Sig(), via, prog.RelPos(a.Pos))
+			fmt.Printf("   [%s] %s%s   @%s   args: %s\n", st, a.Sig(), via, prog.RelPos(a.Pos), a.ArgSig())
 		}
 	}
 	_ = strings.Join
